@@ -95,7 +95,7 @@ func (s *serverSet) remotePort() int {
 
 func main() {
 	run = h.NewRun(prop, "exploration")
-	run.Rule = "scenarios from the case PRNG: A supply mode x pool size x users (exactly-once join), B pool bounds (pool_count 0..8 and hostile values x maxPoolCount 1..5, unsolicited floods), C session end with teardown / registration gates, D hand-off gate per accept path, F announcement (proxy name, user address) on each of 10 accept paths (visitor clients over tcp, kcp and quic), G 6-12 simultaneous users with slow answers on one vhost http route; distinct = distinct (scenario, parameters, hook trace signature)"
+	run.Rule = "scenarios from the case PRNG: A supply mode x pool size x users (exactly-once join), B pool bounds (pool_count 0..8 and hostile values x maxPoolCount 1..5, unsolicited floods), C session end with teardown / registration gates, D hand-off gate per accept path, F announcement (proxy name, user address) on each of 10 accept paths (visitor clients over tcp, kcp and quic), G 6-12 simultaneous users with slow answers on one vhost http route, I a real frpc withdraws a proxy (health check) while a user connection accepted for it is parked in the NewUserConn chain, H CONNECT requests on the vhost http port of a tcpMux=false server whose owner only supplies work connections that are already reset; distinct = distinct (scenario, parameters, hook trace signature)"
 	run.Assumptions = []string{
 		"users are identified by a 16-byte nonce they send first; work connections are numbered by the scripted client that opens them",
 		fmt.Sprintf("userConnTimeout is %d s; 'closed within the timeout' is decided by a %v bounded-progress watchdog (still open afterwards = left open)", userConnTimeoutS, closeGrace),
@@ -124,8 +124,14 @@ func main() {
 	run.ParallelRange(1000000, nHand, 32, scenarioHandoff)
 	run.ParallelRange(3000000, run.N(40, 1000), 16, scenarioAnnounce)
 	run.ParallelRange(4000000, run.N(8, 120), 8, scenarioHTTPFanout)
+	startPlainServer()
+	run.ParallelRange(5000000, run.N(8, 160), 8, scenarioConnectDeadPool)
+	if plainSrv != nil {
+		plainSrv.srv.Close()
+	}
 	startPluginServer()
 	run.ParallelRange(2000000, run.N(12, 240), 12, scenarioPluginReject)
+	run.ParallelRange(6000000, run.N(4, 48), 4, scenarioWithdrawnProxy)
 	for _, s := range servers {
 		s.srv.Close()
 	}
@@ -813,6 +819,8 @@ func scenarioHandoff(c *h.Case) {
 
 var pluginSrv *serverSet
 
+var holdGates, holdSeen sync.Map // proxy name -> chan struct{} / true once the stub was asked
+
 func startPluginServer() {
 	l, err := net.Listen("tcp", "127.0.0.1:0")
 	if err != nil {
@@ -828,6 +836,16 @@ func startPluginServer() {
 		_ = json.NewDecoder(r.Body).Decode(&req)
 		w.Header().Set("Content-Type", "application/json")
 		switch {
+		case strings.HasSuffix(req.Content.ProxyName, ".hold"):
+			// the user connection is parked inside the NewUserConn chain until the case releases it
+			if ch, ok := holdGates.Load(req.Content.ProxyName); ok {
+				holdSeen.Store(req.Content.ProxyName, true)
+				select {
+				case <-ch.(chan struct{}):
+				case <-time.After(40 * time.Second):
+				}
+			}
+			_, _ = w.Write([]byte(`{"reject":false,"unchange":true}`))
 		case strings.HasSuffix(req.Content.ProxyName, ".rej"):
 			_, _ = w.Write([]byte(`{"reject":true,"reject_reason":"policy","unchange":true}`))
 		case strings.HasSuffix(req.Content.ProxyName, ".err"):
@@ -1191,4 +1209,219 @@ func scenarioHTTPFanout(c *h.Case) {
 	if c.Idx < 4000002 {
 		run.Sample(map[string]any{"scenario": "http-fanout", "users": nUsers, "announced": nUsers - len(left), "stuck": stuck})
 	}
+}
+
+// ---------------------------------------------------------------------------------------------
+// H. CONNECT on the vhost http port while every work connection the owner supplies is already reset (tcpMux off:
+// work connections are TCP connections of their own): the hijacked user connection is closed, never left open
+
+var plainSrv *serverSet
+
+func startPlainServer() {
+	ps := pa.Block(2)
+	srv, err := h.StartServerText(prop, fmt.Sprintf("bindAddr = \"127.0.0.1\"\nbindPort = %d\nvhostHTTPPort = %d\nauth.token = \"%s\"\nuserConnTimeout = %d\ntransport.tcpMux = false\ntransport.maxPoolCount = 3\n", ps[0], ps[1], token, userConnTimeoutS))
+	if err != nil {
+		fmt.Fprintln(os.Stderr, "plain server:", err)
+		os.Exit(h.ExitHarnessError)
+	}
+	plainSrv = &serverSet{srv: srv, bind: ps[0], http: ps[1], mp: 3}
+}
+
+func scenarioConnectDeadPool(c *h.Case) {
+	rng := c.Rng
+	ss := plainSrv
+	pool := rng.Intn(4)
+	live := c.Idx%4 == 3 // control: a healthy supply, the tunnel must work
+	c.Data["pool"], c.Data["live_supply"] = pool, live
+	domain := fmt.Sprintf("d%d.deadpool.test", c.Idx)
+	pname := fmt.Sprintf("d%d.px", c.Idx)
+	var opened atomic.Int64
+	p, err := h.DialPeer(h.PeerOpts{ServerPort: ss.bind, TCPMux: false, Token: token, PoolCount: pool})
+	if err != nil || !p.LoggedIn() {
+		run.Inconclusive("login failed")
+		return
+	}
+	defer p.Close()
+	stop := make(chan struct{})
+	defer close(stop)
+	go func() { // the supply: every ReqWorkConn is answered, with a connection that is reset at once (or a healthy one)
+		for {
+			_, err := p.WaitMsg(200*time.Millisecond, func(m msg.Message) bool { _, ok := m.(*msg.ReqWorkConn); return ok })
+			select {
+			case <-stop:
+				return
+			default:
+			}
+			if err == h.ErrPeerClosed {
+				return
+			}
+			if err != nil {
+				continue
+			}
+			wc, err := p.OpenWorkConn()
+			if err != nil {
+				continue
+			}
+			opened.Add(1)
+			if !live {
+				if lc, ok := wc.Conn.(interface{ SetLinger(int) error }); ok {
+					_ = lc.SetLinger(0)
+				}
+				wc.Conn.Close()
+				continue
+			}
+			go func() {
+				defer wc.Conn.Close()
+				if st, err := wc.ReadStart(20 * time.Second); err != nil || st.Error != "" {
+					return
+				}
+				br := bufio.NewReader(wc.Conn)
+				if _, err := http.ReadRequest(br); err != nil {
+					return
+				}
+				_, _ = wc.Conn.Write([]byte("HTTP/1.1 200 Connection established\r\n\r\nTUNNEL-OK"))
+			}()
+		}
+	}()
+	if resp, err := p.NewProxy(&msg.NewProxy{ProxyName: pname, ProxyType: "http", CustomDomains: []string{domain}}, 10*time.Second); err != nil || resp.Error != "" {
+		run.Inconclusive("registration failed")
+		return
+	}
+	time.Sleep(150 * time.Millisecond) // let the advance requests be answered
+	nUsers := 1 + rng.Intn(3)
+	for u := 0; u < nUsers; u++ {
+		uc, err := net.DialTimeout("tcp", fmt.Sprintf("127.0.0.1:%d", ss.http), 5*time.Second)
+		if err != nil {
+			run.Inconclusive("dial failed")
+			return
+		}
+		t0 := time.Now()
+		fmt.Fprintf(uc, "CONNECT %s:80 HTTP/1.1\r\nHost: %s:80\r\n\r\n", domain, domain)
+		_ = uc.SetReadDeadline(time.Now().Add(closeGrace))
+		var got []byte
+		buf := make([]byte, 2048)
+		stuck := false
+		for {
+			n, err := uc.Read(buf)
+			got = append(got, buf[:n]...)
+			if err != nil {
+				if ne, ok := err.(net.Error); ok && ne.Timeout() {
+					stuck = true
+				}
+				break
+			}
+		}
+		uc.Close()
+		run.Count("connect_users_dead_or_live_pool", 1)
+		if stuck {
+			c.Violation("user-connection-left-open-without-peer-http-connect", "CONNECT on the vhost http port, pool_count %d, every supplied work connection already reset=%v: the user connection is still open %v after the request (answer so far %q); neither bridged nor closed", pool, !live, time.Since(t0).Round(100*time.Millisecond), firstLine(got))
+			return
+		}
+		if live && !strings.Contains(string(got), "TUNNEL-OK") {
+			c.Violation("user-connection-lost-despite-prompt-supply", "CONNECT on the vhost http port with a healthy supply was not tunnelled: answer %q", firstLine(got))
+			return
+		}
+	}
+	run.Count("connect_work_connections_supplied", opened.Load())
+	run.Distinct(fmt.Sprintf("connect-deadpool|%d|%v|%d", pool, live, nUsers))
+}
+
+func firstLine(b []byte) string {
+	s := string(b)
+	if i := strings.IndexByte(s, '\n'); i >= 0 {
+		s = s[:i]
+	}
+	if len(s) > 80 {
+		s = s[:80]
+	}
+	return strings.TrimSpace(s)
+}
+
+// ---------------------------------------------------------------------------------------------
+// I. a user connection accepted for a proxy that the (real) client withdraws before the work connection is
+// started: frpc is handed a work connection for a proxy that is no longer running — it has to close it, so that
+// the user connection is closed too instead of staying bridged to a connection nobody serves
+
+func scenarioWithdrawnProxy(c *h.Case) {
+	ss := pluginSrv
+	name := fmt.Sprintf("w%d.hold", c.Idx)
+	gate := make(chan struct{})
+	var once sync.Once
+	release := func() { once.Do(func() { close(gate) }) }
+	holdGates.Store(name, gate)
+	defer func() { release(); holdGates.Delete(name); holdSeen.Delete(name) }()
+	bl, err := net.Listen("tcp", "127.0.0.1:0")
+	if err != nil {
+		run.Inconclusive("backend listen failed")
+		return
+	}
+	defer bl.Close()
+	go func() {
+		for {
+			cn, err := bl.Accept()
+			if err != nil {
+				return
+			}
+			go func() { defer cn.Close(); _, _ = io.Copy(cn, cn) }()
+		}
+	}()
+	rport := ss.remotePort()
+	cli, err := h.StartClientText(prop, fmt.Sprintf(`
+serverAddr = "127.0.0.1"
+serverPort = %d
+auth.token = "%s"
+loginFailExit = false
+transport.tls.enable = false
+transport.poolCount = %d
+[[proxies]]
+name = "%s"
+type = "tcp"
+localIP = "127.0.0.1"
+localPort = %d
+remotePort = %d
+healthCheck.type = "tcp"
+healthCheck.intervalSeconds = 1
+healthCheck.timeoutSeconds = 1
+healthCheck.maxFailed = 1
+`, ss.bind, token, c.Rng.Intn(2), name, bl.Addr().(*net.TCPAddr).Port, rport))
+	if err != nil {
+		run.Inconclusive("frpc did not start")
+		return
+	}
+	defer cli.Close()
+	if err := cli.WaitRunning(20*time.Second, name); err != nil {
+		run.Inconclusive("frpc proxy did not come up")
+		return
+	}
+	uc, err := net.DialTimeout("tcp", fmt.Sprintf("127.0.0.1:%d", rport), 5*time.Second)
+	if err != nil {
+		run.Inconclusive("dial failed")
+		return
+	}
+	defer uc.Close()
+	if !h.Eventually(10*time.Second, func() bool { _, ok := holdSeen.Load(name); return ok }) {
+		run.Inconclusive("the user connection did not reach the NewUserConn plugin")
+		return
+	}
+	bl.Close() // the backend goes away: the health check withdraws the proxy
+	if !h.Eventually(15*time.Second, func() bool { return cli.ProxyPhase(name) == "check failed" }) {
+		run.Inconclusive("frpc did not withdraw the proxy")
+		return
+	}
+	t0 := time.Now()
+	release()
+	run.Count("user_connections_released_after_withdrawal", 1)
+	_ = uc.SetReadDeadline(time.Now().Add(closeGrace))
+	_, _ = uc.Write([]byte("N000000000000000"))
+	buf := make([]byte, 64)
+	for {
+		_, err := uc.Read(buf)
+		if err != nil {
+			if ne, ok := err.(net.Error); ok && ne.Timeout() {
+				c.Violation("user-connection-left-open-without-peer-withdrawn-proxy", "a user connection accepted for proxy %s was released from the NewUserConn chain after the client had withdrawn the proxy (phase check failed): %v later it is still open — neither served nor closed", name, time.Since(t0).Round(100*time.Millisecond))
+			}
+			break
+		}
+	}
+	run.Distinct(fmt.Sprintf("withdrawn|%d", c.Idx%8))
 }
